@@ -1,6 +1,16 @@
 #!/bin/bash
-# Offline setup: nothing to build for the quick tier (python3-vt with z3/cvc5 is pre-installed).
+# Offline setup: check the solver stack and compile the Lean/Mathlib lemma files once
+# (cold `import Mathlib` is ~3 min per file; files are compiled in parallel and cached by content hash).
 set -e
 cd "$(dirname "$0")"
-mkdir -p evidence replay
+mkdir -p evidence replay .cache/lean
 /opt/veriftools/pyvenv/bin/python -c "import z3; print('z3', z3.get_version_string())"
+/opt/veriftools/pyvenv/bin/python - <<'PY'
+import sys, os, concurrent.futures as cf
+sys.path.insert(0, os.getcwd())
+from contracts import lean
+files = sorted(f for f in os.listdir("lemmas") if f.endswith(".lean"))
+with cf.ThreadPoolExecutor(max_workers=8) as ex:
+    for f, r in zip(files, ex.map(lean.compile_file, files)):
+        print("lean", f, r[0], r[1][:200])
+PY
